@@ -40,6 +40,8 @@ def boom(t):
 def trigger_library():
     return {
         "header": ("## H2 first\n", {}, ("myst", "header")),
+        "role_in_heading": ("# T {nosuchrole}`x` end\n\ntext\n", {}, ("myst", "role_unknown")),
+        "strike_in_heading": ("## S ~~gone~~\n\ntext\n", {"myst_enable_extensions": ["strikethrough"]}, ("myst", "strikethrough")),
         "header_text": ("## H2 first\n\ntext below\n", {}, ("myst", "header")),
         "header_jump": ("# A\n\n### B\n\ntext\n", {}, ("myst", "header")),
         "header_jump2": ("# A\n\n## B\n\n#### C\n\n## D\n", {}, ("myst", "header")),
@@ -170,7 +172,11 @@ def top_shape(text, ov):
     from docutils import nodes
     from ..frontends import docutils_doctree
     doc, _ = docutils_doctree(text, {**ov, "myst_suppress_warnings": []})
-    return ["warn" if isinstance(c, nodes.system_message) else c.tagname for c in doc.children]
+    out = ["warn" if isinstance(c, nodes.system_message) else c.tagname for c in doc.children]
+    secs = [c for c in doc.children if isinstance(c, nodes.section)]
+    if len(secs) == 1 and len(secs[0]) and isinstance(secs[0][0], nodes.title) and list(secs[0][0].findall(nodes.system_message)):
+        out.append("title-warn")         # the only section's title holds a warning node (its text ends up in document['title'])
+    return out
 
 
 def _supp(tag, suppress):
@@ -180,11 +186,13 @@ def _supp(tag, suppress):
 def _only_promotion(o):
     """signature of C14-doctitle-promotion: exactly one top-level section, everything after it are warning nodes, at least
     one of which the list suppresses; AND without the doctitle/subtitle transforms the pair satisfies the relation"""
-    top = [k for k in o["top"] if k not in ("comment", "target", "substitution_definition", "pending", "meta", "docinfo")]
+    top = [k for k in o["top"] if k not in ("comment", "target", "substitution_definition", "pending", "meta", "docinfo", "title-warn")]
+    title_warn = "title-warn" in o["top"]
     lead = 0
     while lead < len(top) and top[lead] == "warn":
         lead += 1
     shape = top[lead:lead + 1] == ["section"] and len(top) > lead + 1 and all(k == "warn" for k in top[lead + 1:])
+    shape = shape or (title_warn and top.count("section") == 1)
     if not shape:
         return False
     filt = [it for it in o["plainA"] if not (it[0] in ("warn", "log") and _supp(it[1], o["suppress"]))]
